@@ -18,6 +18,10 @@ CONSTANTS
   MaxNow = 0
   AllowClose = TRUE
   AllowCtx = TRUE
+  MaxCalls = 2
+  WFault = TRUE
+  TimeoutCarriesOver = FALSE
+  WriteErrKeepsEntry = FALSE
   MaxTry = 2
 INVARIANTS EmitWhenQuiet
 CHECK_DEADLOCK FALSE
